@@ -36,3 +36,10 @@ func verifSortUncles(uncles []*types.WorkObjectHeader) {
 
 // VerifProcAppendQueue performs one iteration of the ticker branch of Core.updateAppendQueue.
 func (c *Core) VerifProcAppendQueue() { c.procAppendQueue() }
+
+// verifSortQiTxs is the map-order seam used by the patched worker.fillTransactions.
+func verifSortQiTxs(txs []*types.TxWithMinerFee) {
+	sort.Slice(txs, func(i, j int) bool {
+		return bytes.Compare(txs[i].Tx().Hash().Bytes(), txs[j].Tx().Hash().Bytes()) < 0
+	})
+}
